@@ -6,8 +6,9 @@ Specification of the template syntax (property C09).
 * `evalTree` – its value against an environment (groups, keys, function semantics).
 * `escapeLit` – how arbitrary text is written outside braces.
 * `printTop style e` – every admissible way of writing `e` down: white space after `{`, before `}`
-  and between arguments is any run of spaces/tabs the style chooses (at least one character between
-  arguments), and a literal argument is quoted or – where that is legal – bare, as the style chooses.
+  and between arguments is any run of Unicode `White_Space` runes the style chooses (at least one
+  between arguments), and a literal argument is quoted or – where that is legal – bare, as the style
+  chooses.
 
 Nothing here mentions how rare parses.
 -/
@@ -72,21 +73,33 @@ def decimal (n : Nat) : List Char :=
   if _h : n < 10 then [digitChar n] else decimal (n / 10) ++ [digitChar (n % 10)]
 decreasing_by omega
 
-/-- Choices at one node of the tree. White space is a run over {space, tab}: `false` = space, `true` = tab. -/
+/-- The 25 runes with the Unicode `White_Space` property – exactly the runes `isSpace` accepts
+    (`wsChar_complete`): space, tab, LF, VT, FF, CR, NEL, NBSP, OGHAM SPACE MARK, EN QUAD … HAIR SPACE,
+    LINE / PARAGRAPH SEPARATOR, NARROW NBSP, MEDIUM MATHEMATICAL SPACE, IDEOGRAPHIC SPACE. -/
+def spaceRunes : List Char :=
+  [' ', '\t', '\n', '\x0b', '\x0c', '\r', '\u0085', '\u00a0', '\u1680',
+   '\u2000', '\u2001', '\u2002', '\u2003', '\u2004', '\u2005', '\u2006', '\u2007', '\u2008', '\u2009', '\u200a',
+   '\u2028', '\u2029', '\u202f', '\u205f', '\u3000']
+
+/-- A run of white space: each rune named by its index in `spaceRunes` (taken modulo 25, so every list
+    of numbers is a run and every run of `White_Space` runes is such a list). -/
+abbrev WsRun := List Nat
+
+/-- Choices at one node of the tree. -/
 structure NodeStyle where
   quote : Bool                      -- quote a literal argument although it could stand bare
-  lead : List Bool                  -- after `{`
-  trail : List Bool                 -- before `}`
-  sep : Nat → Bool × List Bool      -- before argument `i` (non-empty by construction)
+  lead : WsRun                      -- after `{`
+  trail : WsRun                     -- before `}`
+  sep : Nat → Nat × WsRun           -- before argument `i` (non-empty by construction)
 
 /-- A style gives the choices for every node, addressed by its path from the root. -/
 abbrev Style := List Nat → NodeStyle
 
 def Style.child (σ : Style) (i : Nat) : Style := fun p => σ (i :: p)
 
-def wsChar (b : Bool) : Char := if b then '\t' else ' '
-def ws (l : List Bool) : List Char := l.map wsChar
-def sepWs (p : Bool × List Bool) : List Char := ws (p.1 :: p.2)
+def wsChar (n : Nat) : Char := spaceRunes.getD (n % 25) ' '
+def ws (l : WsRun) : List Char := l.map wsChar
+def sepWs (p : Nat × WsRun) : List Char := ws (p.1 :: p.2)
 
 mutual
 /-- An expression in argument position (and any non-literal at top level). -/
